@@ -27,8 +27,8 @@ CONDS = [
 
 
 def run(ctx):
-    ctx.assume('type=hidden inputs are not generated (the statement says "form controls"; HTML and soupsieve differ on '
-               'whether hidden inputs are :enabled/:disabled)', 'buttons always carry an explicit type',
+    ctx.assume('type=hidden inputs are generated and count as outside :enabled/:disabled, as the library documents',
+               'buttons always carry an explicit type', 'about 45% of the documents contain exact copies of a form or fieldset (identical markup, distinct nodes)',
                'documents are seeded pools chosen by symbolic index; the symbolic condition is time-boxed',
                'CrossHair 0.0.110 trusted for "exhaustive"; counterexamples replayed')
     ctx.run_e1('harness.c17', CONDS, FUNCS)
